@@ -77,6 +77,17 @@ def spec_sites(case, upto=None):
     return blocks, modes
 
 
+def spec_iter_len(case, mode):
+    """the callbacks of one pass of the given mode (python mirror of Robot.Model.iter_sites)"""
+    n = case["ncomp"]
+    fbs = [0] * (len(case["fb_owners"]) + 1)
+    if mode == "Auto":
+        return ([0] if case["has_auto"] else []) + ([0] if case["teleop_in_auto"] else []) + [0] * n + fbs
+    if mode == "Teleop":
+        return [0] + [0] * n + fbs
+    return [0] + fbs
+
+
 def site_fms(case):
     """The FMS state in force at every call of the specified sequence (python mirror of Robot.Mixed.spec_fms)."""
     blocks, _ = spec_sites(case)
@@ -93,7 +104,7 @@ def gen_case(r, pid=None):
     ncomp = r.choice([0, 1, 1, 2, 2, 3, 3, 4])
     comps = [dict(has_setup=r.random() < 0.7, has_enable=r.random() < 0.75, has_disable=r.random() < 0.75,
                   inherit=r.random() < 0.4, redeclare=r.random() < 0.5, preassign=r.random() < 0.3,
-                  sm=r.random() < 0.25, hook=r.random() < 0.25) for _ in range(ncomp)]
+                  sm=r.random() < 0.25, hook=r.random() < 0.25, static_hooks=r.random() < 0.2) for _ in range(ncomp)]
     # a second (third ...) component of the same class as an earlier one (left / right shooter)
     for j in range(1, ncomp):
         if r.random() < 0.2:
@@ -154,6 +165,8 @@ def gen_case(r, pid=None):
         ticks = ticks[:cut] + ["end"]
     case = dict(ncomp=ncomp, comps=comps, fb_owners=fb_owners, fb_fn=fb_fn, teleop_in_auto=r.random() < 0.4,
                 has_auto=r.random() < 0.7, auto_falsy=r.random() < 0.3, fms=fms, nattr=nattr, marked=marked,
+                match_type=r.choice([None, None, "kPractice", "kQualification", "kElimination"]),
+                auto_selector=r.choice([None, None, None, "scale_left_2018", "m", ""]),
                 robot_split=(r.randrange(0, ncomp + 1) if ncomp and r.random() < 0.3 else 0),
                 ticks=ticks, raises=[], writes={}, fbval={})
     blocks, _ = spec_sites(case)
@@ -496,6 +509,31 @@ def oracle(case, out):
             if not case.get("timed") and prev_tick_t is not None and e[3] - prev_tick_t != P_US:
                 v.append(("C05", "robotPeriodic #%d at FPGA %d us, previous at %d us: not one iteration per %d us" % (rpi, e[3], prev_tick_t, P_US)))
             prev_tick_t = e[3]
+    # ---- C05: a mode's NotifierDelay is created after the mode's entry code and before its first pass
+    nds_ = out.get("nds") or []
+    if nds_ and all("at" in nd for nd in nds_):
+        want_at = []
+        pos_ = len(blocks[0])
+        cur_ = None
+        for t, b in zip(case["ticks"], blocks[1:]):
+            if t == "end":
+                break
+            if t[0] != "fms" and not (cur_ is not None and stays(cur_, t)):
+                new_ = dispatch(t)
+                n_iter = len(b) - len(spec_iter_len(case, new_))
+                want_at.append(pos_ + n_iter)
+                cur_ = new_
+            pos_ += len(b)
+        got_at = [nd["at"] for nd in nds_]
+        ncmp = min(len(got_at), len(want_at))
+        crash_at = len(log)
+        for gi in range(ncmp):
+            if want_at[gi] > crash_at:
+                break
+            if got_at[gi] != want_at[gi]:
+                v.append(("C05", "mode loop #%d: its NotifierDelay is created after callback #%d, but the mode's entry code ends and its first "
+                                 "pass begins after callback #%d: the control period must start with the first pass" % (gi, got_at[gi], want_at[gi])))
+                break
     # ---- C05, the time axis (timed cases: callbacks take time, wake-ups come late, all fitting in the period)
     if case.get("timed"):
         v += [("C05", m) for m in oracle_time(case, out)]
